@@ -417,6 +417,7 @@ func (bsc *BlipSyncContext) handleChangesResponse(ctx context.Context, sender *b
 	if collectionCtx.sgr2PushAlreadyKnownSeqsCallback != nil {
 		collectionCtx.sgr2PushAlreadyKnownSeqsCallback(alreadyKnownSeqs...)
 	}
+	verifPoint("push-changes-response-between-known-and-expected")
 
 	if revSendCount > 0 {
 		if collectionCtx.sgr2PushAddExpectedSeqsCallback != nil {
